@@ -4,6 +4,7 @@ Grammar and layout of the round trip: Spec.lean / SpecFile.lean; helper lemmas: 
 -/
 import TfelVerif.C31.Strip
 import TfelVerif.C31.LemFile
+import TfelVerif.C31.LemFuel4
 
 namespace TfelVerif.C31
 
@@ -85,6 +86,28 @@ theorem stripComments_leaves_no_comment (ts : List Tok) :
 
 example : (stripComments [⟨['a'], 1, 0, .comment, []⟩, ⟨['x'], 1, 3, .standard, []⟩,
     ⟨['d'], 1, 5, .doxygenBack, []⟩]).map Tok.core = [(['x'], 1, 3, .standard)] := by decide
+
+/-! ## (c) totality
+
+Every function of the model is accepted by Lean as a structural recursion (over the remaining characters,
+or over the explicit fuel of `stdLoop`), and every read of a character is guarded (`peek`, pattern matching).
+The two theorems below show that the fuel is not a hidden partiality: for EVERY option set and EVERY input
+an iteration consumes at least one character, so the loop started by `parseStandardLine` with
+`fuel = length + 1` never reaches its `out of fuel` branch (its result is the same for any larger fuel).
+-/
+
+/-- (c) progress: whatever the options and the input, a successful iteration of the main loop leaves a
+    strict suffix of `c :: r` -/
+theorem main_loop_progress (op : Opts) (n : Nat) (s : St) (o : Nat) (prev c : Char) (r : List Char)
+    (s' : St) (o' : Nat) (cons rest : List Char)
+    (h : stdStep op n s o prev c r = .ok (s', o', cons, rest)) : rest.length ≤ r.length :=
+  stdStep_progress op n s o prev c r s' o' cons rest h
+
+/-- (c) the fuel `length + 1` used by `parseStandardLine` is sufficient: any larger fuel gives the same result -/
+theorem main_loop_fuel_is_sufficient (op : Opts) (n : Nat) (s : St) (o : Nat) (prev : Char) (l : List Char)
+    (f : Nat) (hf : l.length < f) :
+    stdLoop op n f s o prev l = stdLoop op n (l.length + 1) s o prev l :=
+  stdLoop_fuel_irrelevant op n f (l.length + 1) s o prev l hf (Nat.lt_succ_self _)
 
 /-! ## non-vacuity of (a): a two-line file satisfying every hypothesis -/
 
